@@ -280,6 +280,9 @@ class MachO(BinFormat):
                 sz = elt.size()
             for n in range(count):
                 data = self.__file.read(sz)
+                if len(data) < sz:
+                    # the count comes from the file: stop at its end
+                    raise MachOError("table exceeds the file")
                 tab.append(elt(data))
         return tab
 
